@@ -21,6 +21,45 @@ def lexicon(ctx, modname, afs):
     return m, env['registers'], env['segments']
 
 
+def string_trip_rule(ctx, R5, X=None):
+    """A segment override of movs/cmps/lods survives rendering and re-assembly (shared with C09: both syntaxes go through normalize_args)."""
+    X = X or x86model(ctx)
+    arch = X.arch
+    from .. import stringops as SO
+    strm = arch.method('x86_mn', '__str__')
+    for fam, n_ops in SO.FAMILIES:
+        if fam in ('stos', 'scas'):
+            continue            # only [edi]: no override possible
+        for sfx in ('b', 'd'):
+            mn = fam + sfx
+            for segname in ('fs', 'cs', None):
+                pre = [SO.SEG_PREFIX[segname]] if segname else []
+                ops = SO.decoded_operands(X, mn, pre)
+                kept = SO.rendered_operand_count(X, mn, ops)
+                # the assembler receives the operands in the order __str__ prints them (cmps is written source first); both parsers deliver that order
+                printed = SO.rendered_operands(X, mn, ops)
+                back_args, back_prefix = SO.normalized(X, mn, printed if printed else ops)
+                inst = '%s %s' % (('%s:' % segname) if segname else 'plain', mn)
+                if segname is None:
+                    if back_prefix:
+                        R5.violation(inst, 'string-trip:%s:spurious-prefix' % fam, '%s is assembled back with the prefix %s' % (mn, back_prefix), where(arch, strm))
+                    else:
+                        R5.ok(inst, sample='%s: %d operands printed, no prefix on the way back' % (mn, kept))
+                    continue
+                problems = []
+                if kept == 0:
+                    problems.append('__str__ prints it as the plain %s (operands elided, prefix not shown)' % mn)
+                if back_prefix != pre:
+                    problems.append('normalize_args drops the explicit operands and the assembler emits prefix %s instead of %s' % (back_prefix, pre))
+                if back_args:
+                    problems.append('normalize_args keeps %d operands' % len(back_args))
+                if problems:
+                    R5.violation(inst, 'string-trip:%s:%s' % (fam, ';'.join(problems)[:90]), '%s: %s' % (inst, '; '.join(problems)), where(arch, strm),
+                                 witness="str(dis(64 a4)) == 'movsb'; asm('movsb BYTE PTR es:[edi], BYTE PTR fs:[esi]') == [a4]")
+                else:
+                    R5.ok(inst, sample='%s: operands printed (%d), re-assembled with prefix %s' % (inst, kept, back_prefix))
+
+
 def run(ctx, report):
     X = x86model(ctx)
     arch, E, afs = X.arch, X.env, X.afs
@@ -357,37 +396,12 @@ def run(ctx, report):
 
     # ---------------------------------------------------------------- D5 a segment override of a string instruction survives the trip
     R5 = report.rule('C03.D5', 'string instructions: a segment override is printed and assembled back', floor=12)
-    from .. import stringops as SO
-    strm = arch.method('x86_mn', '__str__')
-    for fam, n_ops in SO.FAMILIES:
-        if fam in ('stos', 'scas'):
-            continue            # only [edi]: no override possible
-        for sfx in ('b', 'd'):
-            mn = fam + sfx
-            for segname in ('fs', 'cs', None):
-                pre = [SO.SEG_PREFIX[segname]] if segname else []
-                ops = SO.decoded_operands(X, mn, pre)
-                kept = SO.rendered_operand_count(X, mn, ops)
-                back_args, back_prefix = SO.normalized(X, mn, ops)
-                inst = '%s %s' % (('%s:' % segname) if segname else 'plain', mn)
-                if segname is None:
-                    if back_prefix:
-                        R5.violation(inst, 'string-trip:%s:spurious-prefix' % fam, '%s is assembled back with the prefix %s' % (mn, back_prefix), where(arch, strm))
-                    else:
-                        R5.ok(inst, sample='%s: %d operands printed, no prefix on the way back' % (mn, kept))
-                    continue
-                problems = []
-                if kept == 0:
-                    problems.append('__str__ prints it as the plain %s (operands elided, prefix not shown)' % mn)
-                if back_prefix != pre:
-                    problems.append('normalize_args drops the explicit operands and the assembler emits prefix %s instead of %s' % (back_prefix, pre))
-                if back_args:
-                    problems.append('normalize_args keeps %d operands' % len(back_args))
-                if problems:
-                    R5.violation(inst, 'string-trip:%s:%s' % (fam, ';'.join(problems)[:90]), '%s: %s' % (inst, '; '.join(problems)), where(arch, strm),
-                                 witness="str(dis(64 a4)) == 'movsb'; asm('movsb BYTE PTR es:[edi], BYTE PTR fs:[esi]') == [a4]")
-                else:
-                    R5.ok(inst, sample='%s: operands printed (%d), re-assembled with prefix %s' % (inst, kept, back_prefix))
+    string_trip_rule(ctx, R5, X)
+
+    # ---------------------------------------------------------------- D6 every value a short field can hold is offered back by the assembler
+    R6 = report.rule('C03.D6', 'the ranges the assembler accepts for disp8/imm8/rel8/imm16/imm32 are the full ranges of those fields (check_imm_size)', floor=10)
+    from .c02 import range_rule
+    range_rule(ctx, R6)
 
 
 MUTANTS = [
